@@ -75,9 +75,9 @@ def nSucceeded (items : List Json) : Nat := items.countP (fun i => !itemFailedB 
 
 /-- **bulk_detailed_counts.**  Detailed path, every response whose items the loop can process (`Classified`:
     status / shard counters present and integral): reported successful iff no item failed, success and error
-    counts are the numbers of succeeded and failed items — unless `error_description` raises (see below). -/
+    counts are the numbers of succeeded and failed items. -/
 theorem bulk_detailed_counts (kvs : List (Str × Json)) (items : List Json) (rs : List (Option (Int × Option Str)))
-    (h : BulkResp kvs items) (hc : Classified true items rs) (hd : descRaises (tally {} rs).details = false) :
+    (h : BulkResp kvs items) (hc : Classified true items rs) :
     ∃ details, detailedStats (.obj kvs) = .ok
       { took := (oget kvs kTook).map (fun n => PVal.s n.toSVal), success := nFailed items == 0,
         successCount := some (nSucceeded items), errorCount := nFailed items, details := details } ∧
@@ -88,13 +88,13 @@ theorem bulk_detailed_counts (kvs : List (Str × Json)) (items : List Json) (rs 
   refine ⟨(tally {} rs).details, ?_, fun d => by simpa using tally_details rs {} d⟩
   unfold detailedStats
   rw [hi]
-  simp only [countItems_eq true items rs {} hc, hd, Bool.and_false, Bool.false_eq_true, if_false, tookOf_ok kvs h.tookScalar, statsOf]
+  simp only [countItems_eq true items rs {} hc, tookOf_ok kvs h.tookScalar, statsOf]
   simp [c1, c2, n1, n2, nFailed, nSucceeded]
 
 /-- **bulk_fast_counts_when_flagged.**  Fast path, `errors` truthy: the same counts as the detailed path. -/
 theorem bulk_fast_counts_when_flagged (bulkSize : Int) (unitDocs : Bool) (kvs : List (Str × Json)) (items : List Json)
     (rs : List (Option (Int × Option Str))) (h : BulkResp kvs items) (hc : Classified false items rs)
-    (hd : descRaises (tally {} rs).details = false) (hf : errorsFlag kvs = true) :
+    (hf : errorsFlag kvs = true) :
     ∃ details, simpleStats bulkSize unitDocs (.obj kvs) = .ok
       { took := (oget kvs kTook).map (fun n => PVal.s n.toSVal), success := nFailed items == 0,
         successCount := some (nSucceeded items), errorCount := nFailed items, details := details } ∧
@@ -107,7 +107,7 @@ theorem bulk_fast_counts_when_flagged (bulkSize : Int) (unitDocs : Bool) (kvs : 
   rw [hf]
   unfold simpleStatsWith
   rw [hi]
-  simp only [if_true, countItems_eq false items rs {} hc, hd, Bool.and_false, Bool.false_eq_true, if_false, statsOf]
+  simp only [if_true, countItems_eq false items rs {} hc, statsOf]
   simp [c1, c2, n1, n2, nFailed, nSucceeded]
 
 /-- **bulk_fast_unflagged.**  Fast path, `errors` false or absent: success, zero errors, and the *requested*
@@ -129,15 +129,15 @@ def Agree (s d : BulkStats) (items : List Json) : Prop :=
 /-- **bulk_counts_agree (partial).**  Both paths report success iff no item failed and the numbers of
     succeeded / failed items, PROVIDED the `errors` flag covers every failed item (flag false ⇒ no item failed,
     which for Elasticsearch means: no item that only reports failed shards), the unit is "docs" with the bulk
-    size equal to the number of items, and `error_description` does not raise. -/
+    size equal to the number of items. -/
 theorem bulk_counts_agree_partial (kvs : List (Str × Json)) (items : List Json) (rs : List (Option (Int × Option Str)))
-    (h : BulkResp kvs items) (hc : Classified true items rs) (hd : descRaises (tally {} rs).details = false)
+    (h : BulkResp kvs items) (hc : Classified true items rs)
     (hcover : errorsFlag kvs = false → nFailed items = 0) :
     ∃ s d, simpleStats (items.length : Int) true (.obj kvs) = .ok s ∧ detailedStats (.obj kvs) = .ok d ∧ Agree s d items := by
-  obtain ⟨dd, hdet, _⟩ := bulk_detailed_counts kvs items rs h hc hd
+  obtain ⟨dd, hdet, _⟩ := bulk_detailed_counts kvs items rs h hc
   cases hf : errorsFlag kvs with
   | true =>
-    obtain ⟨ds, hs, _⟩ := bulk_fast_counts_when_flagged (items.length : Int) true kvs items rs h (classified_true_false items rs hc) hd hf
+    obtain ⟨ds, hs, _⟩ := bulk_fast_counts_when_flagged (items.length : Int) true kvs items rs h (classified_true_false items rs hc) hf
     exact ⟨_, _, hs, hdet, rfl, rfl, rfl, rfl, rfl, rfl⟩
   | false =>
     have h0 := hcover hf
@@ -153,7 +153,7 @@ theorem bulk_counts_agree_partial (kvs : List (Str × Json)) (items : List Json)
 /-- the full statement (without the hypothesis on the flag) -/
 def BulkFastAlwaysAgrees : Prop :=
   ∀ (kvs : List (Str × Json)) (items : List Json) (rs : List (Option (Int × Option Str))),
-    BulkResp kvs items → Classified true items rs → descRaises (tally {} rs).details = false →
+    BulkResp kvs items → Classified true items rs →
     ∃ s d, simpleStats (items.length : Int) true (.obj kvs) = .ok s ∧ detailedStats (.obj kvs) = .ok d ∧ Agree s d items
 
 def shardsFailDoc : List (Str × Json) :=
@@ -179,7 +179,7 @@ theorem shardsFail_resp : BulkResp shardsFailDoc shardsFailItems :=
 theorem bulk_fast_always_agrees_false : ¬ BulkFastAlwaysAgrees := by
   intro hall
   obtain ⟨s, d, hs, hd, hag⟩ := hall shardsFailDoc shardsFailItems [some (201, none)] shardsFail_resp
-    (.cons (by decide) .nil) (by decide)
+    (.cons (by decide) .nil)
   have hs' : simpleStats (shardsFailItems.length : Int) true (.obj shardsFailDoc) = .ok
       { took := some (.s (.num (nat ['3']))), success := true, successCount := some 1, errorCount := 0, details := [] } := by decide
   have hd' : detailedStats (.obj shardsFailDoc) = .ok
@@ -196,10 +196,22 @@ example : (simpleStats 1 true (.obj ((kErrors, .bool true) :: shardsFailDoc.tail
     (detailedStats (.obj ((kErrors, .bool true) :: shardsFailDoc.tail.tail))).toOption.map (fun s => (s.success, s.successCount, s.errorCount)) =
       some (false, some 0, 1) := by decide
 
-/-- the full statement about `error_description` never raising -/
-def BulkNeverRaises : Prop :=
-  ∀ (kvs : List (Str × Json)) (items : List Json) (rs : List (Option (Int × Option Str))),
-    BulkResp kvs items → Classified true items rs → ∃ d, detailedStats (.obj kvs) = .ok d
+/-- non-vacuity of `bulk_detailed_counts` and `bulk_counts_agree_partial`: the witness response (one item
+    with a failed shard) with `errors = true` satisfies all hypotheses; both paths then report failure / 0 / 1 -/
+def flaggedDoc : List (Str × Json) := (kTook, .num (nat ['3'])) :: (kErrors, .bool true) :: shardsFailDoc.tail.tail
+
+theorem flagged_resp : BulkResp flaggedDoc shardsFailItems :=
+  ⟨⟨by decide, by decide⟩, rfl, shardsFail_resp.single, rfl, rfl⟩
+
+example : ∃ s d, simpleStats 1 true (.obj flaggedDoc) = .ok s ∧ detailedStats (.obj flaggedDoc) = .ok d ∧
+    s.success = false ∧ d.success = false ∧ s.errorCount = 1 ∧ d.errorCount = 1 := by
+  obtain ⟨s, d, h1, h2, a1, _, a3, a4, _, a6⟩ := bulk_counts_agree_partial flaggedDoc shardsFailItems [some (201, none)]
+    flagged_resp (.cons (by decide) .nil) (by decide)
+  refine ⟨s, d, h1, h2, ?_, ?_, ?_, ?_⟩
+  · rw [a1, a4]; decide
+  · rw [a4]; decide
+  · rw [a3, a6]; decide
+  · rw [a6]; decide
 
 def failedItem (reason : Json) : Json :=
   .obj [(['i','n','d','e','x'], .obj [(kStatus, .num (nat ['5','0','0'])),
@@ -208,19 +220,18 @@ def failedItem (reason : Json) : Json :=
 def mixedItems : List Json := [failedItem .null, failedItem (.str ['b','o','o','m'])]
 def mixedDoc : List (Str × Json) := [(kErrors, .bool true), (kItems, .arr mixedItems)]
 
-/-- **Negation witness.**  Two failed items with the same status, one with `"reason": null` and one with a
-    textual reason: `sorted(error_details)` compares `None` with a `str` → TypeError in both paths. -/
-theorem bulk_never_raises_false : ¬ BulkNeverRaises := by
-  intro hall
-  obtain ⟨d, hd⟩ := hall mixedDoc mixedItems [some (500, none), some (500, some ['b','o','o','m'])]
-    ⟨⟨by decide, by decide⟩, rfl, by
-      intro item hi
-      simp only [mixedItems, List.mem_cons, List.mem_nil_iff, or_false] at hi
-      rcases hi with hi | hi <;> exact ⟨_, _, hi⟩, rfl, trivial⟩
-    (.cons (by decide) (.cons (by decide) .nil))
-  have : detailedStats (.obj mixedDoc) = .error .typeError := by decide
-  rw [this] at hd
-  cases hd
+/-- **bulk_never_raises.**  Since commit 027a7b5 (`sorted(..., key=(status, reason or ""))`) neither path can
+    raise on a response whose items the loop can process. -/
+theorem bulk_never_raises (kvs : List (Str × Json)) (items : List Json) (rs : List (Option (Int × Option Str)))
+    (h : BulkResp kvs items) (hc : Classified true items rs) : ∃ d, detailedStats (.obj kvs) = .ok d := by
+  obtain ⟨dd, hdet, _⟩ := bulk_detailed_counts kvs items rs h hc
+  exact ⟨_, hdet⟩
+
+/-- the former witness of the TypeError (two failed items with the same status, one `"reason": null`, one
+    textual) is now counted: failure / 0 / 2 in both paths -/
+example : (detailedStats (.obj mixedDoc)).toOption.map (fun s => (s.success, s.successCount, s.errorCount)) = some (false, some 0, 2) ∧
+    (simpleStats 2 true (.obj mixedDoc)).toOption.map (fun s => (s.success, s.successCount, s.errorCount)) = some (false, some 0, 2) := by
+  decide
 
 /-! ## 3. The `search_after` cursor -/
 
@@ -293,18 +304,19 @@ theorem last_hit_sort_in_text (st : Style) (j : Json) (sv : Json) (h : lastHitSo
     | obj o => simp at h
 
 /-- **cursor_is_last_sort.**  For every response, every whitespace/escaping style *without whitespace between
-    a key and its colon*, if the last hit's sort value is a flat array of scalars none of whose renderings
-    contains `]`, then at **every** place `pre` where that member `"sort":[…]` occurs in the text such that no
-    `"sort"` token starts after `pre`, the extractor returns exactly that array.  (With
-    `last_hit_sort_in_text` such a place exists; the three hypotheses are each necessary, see the witnesses.) -/
+    a key and its colon*, if the last hit's sort value is a flat array of scalars (arbitrary strings: quotes,
+    brackets, escapes, non-ASCII; arbitrary number literals), then at **every** place `pre` where that member
+    `"sort":[…]` occurs in the text such that no `"sort"` token starts after `pre`, the extractor returns
+    exactly that array.  (With `last_hit_sort_in_text` such a place exists; the two hypotheses on the text are
+    each necessary, see the witnesses.  Code after commit 6007750.) -/
 theorem cursor_is_last_sort (st : Style) (hst : st.valid = true) (hbc : st.beforeColon = []) (j : Json)
     (vals : List Json) (_h : lastHitSort j = some (.arr vals)) (hv : ∀ v ∈ vals, ScalarOK v)
-    (hnb : ∀ v ∈ vals, ']' ∉ render st v) (pre post : Str)
+    (pre post : Str)
     (hpos : renderDoc st j = pre ++ memberText st kSort (.arr vals) ++ post)
     (hlast : ∀ k, pre.length < k → ¬ TokenAt (renderDoc st j) k) :
     lastSort (renderDoc st j) = .ok (some (.arr vals)) := by
   rw [hpos] at hlast ⊢
-  exact lastSort_member st hst hbc vals hv hnb pre post (fun k hk => by
+  exact lastSort_member st hst hbc vals hv pre post (fun k hk => by
     have := hlast k hk
     simpa [TokenAt] using this)
 
@@ -312,13 +324,14 @@ theorem cursor_is_last_sort (st : Style) (hst : st.valid = true) (hbc : st.befor
 theorem cursor_none_without_token (text : Str) (h : ∀ k, ¬ TokenAt text k) : lastSort text = .ok none :=
   lastSort_no_token text (fun k => by simpa [TokenAt] using h k)
 
-/-- non-vacuity of `cursor_is_last_sort`: `{"hits":{"hits":[{"_id":"x","sort":["q\"",-1.5e3,null]}]}}` in the
-    python-style rendering satisfies every hypothesis (the last-token hypothesis through `rfind`) -/
+/-- non-vacuity of `cursor_is_last_sort`: `{"hits":{"hits":[{"_id":"x","sort":["q\"]",-1.5e3,null]}]}}` (a quote
+    and a `]` inside a sort string) in the python-style rendering satisfies every hypothesis (the last-token
+    hypothesis through `rfind`) -/
 example : lastSort (renderDoc { afterComma := [' '], afterColon := [' '] }
       (.obj [(kHits, .obj [(kHits, .arr [.obj [(['_','i','d'], .str ['x']),
-        (kSort, .arr [.str ['q', '"'], .num ⟨true, ['1'], ['5'], some (['e'], ['3'])⟩, .null])]])])])) =
-    .ok (some (.arr [.str ['q', '"'], .num ⟨true, ['1'], ['5'], some (['e'], ['3'])⟩, .null])) := by
-  refine cursor_is_last_sort _ (by decide) rfl _ _ rfl ?_ ?_
+        (kSort, .arr [.str ['q', '"', ']'], .num ⟨true, ['1'], ['5'], some (['e'], ['3'])⟩, .null])]])])])) =
+    .ok (some (.arr [.str ['q', '"', ']'], .num ⟨true, ['1'], ['5'], some (['e'], ['3'])⟩, .null])) := by
+  refine cursor_is_last_sort _ (by decide) rfl _ _ rfl ?_
     ['{', '"', 'h', 'i', 't', 's', '"', ':', ' ', '{', '"', 'h', 'i', 't', 's', '"', ':', ' ', '[', '{', '"', '_', 'i', 'd', '"', ':', ' ', '"', 'x', '"', ',', ' ']
     ['}', ']', '}', '}']  (by decide) ?_
   · intro v hv
@@ -327,13 +340,10 @@ example : lastSort (renderDoc { afterComma := [' '], afterColon := [' '] }
     · trivial
     · exact numOK_of_valid _ (by decide)
     · trivial
-  · intro v hv
-    simp only [List.mem_cons, List.mem_nil_iff, or_false] at hv
-    rcases hv with hv | hv | hv <;> subst hv <;> decide
   · intro k hk
     have := rfind_some_later sortTok (by decide) _ 32 (by decide : rfind sortTok (renderDoc { afterComma := [' '], afterColon := [' '] }
       (.obj [(kHits, .obj [(kHits, .arr [.obj [(['_','i','d'], .str ['x']),
-        (kSort, .arr [.str ['q', '"'], .num ⟨true, ['1'], ['5'], some (['e'], ['3'])⟩, .null])]])])])) = some 32) k hk
+        (kSort, .arr [.str ['q', '"', ']'], .num ⟨true, ['1'], ['5'], some (['e'], ['3'])⟩, .null])]])])])) = some 32) k hk
     simp [TokenAt, this]
 
 /-- the statement without the two hypotheses on the text -/
@@ -354,32 +364,38 @@ def isOkNone : Except Err (Option Json) → Bool
 /-- `{"hits":{"hits":[{"sort":["a]b",3]}]}}` -/
 def bracketDoc : Json := searchDoc [(kSort, .arr [.str ['a', ']', 'b'], .num (nat ['3'])])]
 
-/-- **Negation witness 1 (genuine defect).**  A sort string containing `]`: the regex capture stops inside the
-    string and `json.loads` raises. -/
-theorem cursor_bracket_witness : isDecodeErr (lastSort (renderDoc {} bracketDoc)) = true := by decide
+def isOkSome : Except Err (Option Json) → Bool
+  | .ok (some _) => true
+  | _ => false
 
-theorem cursor_always_last_sort_false : ¬ CursorAlwaysLastSort := by
-  intro h
-  have := h {} bracketDoc [.str ['a', ']', 'b'], .num (nat ['3'])] (by decide) rfl rfl (by
-    intro v hv
-    simp only [List.mem_cons, List.mem_nil_iff, or_false] at hv
-    rcases hv with hv | hv <;> subst hv
-    · trivial
-    · exact numOK_of_valid _ (by decide))
-  have hw := cursor_bracket_witness
-  rw [this] at hw
-  cases hw
+/-- **Historical witness (defect of the pinned revision, repaired by commit 6007750).**  A sort string
+    containing `]`: the old regex capture stopped inside the string and `json.loads` raised; the repaired
+    extractor decodes the value. -/
+theorem cursor_bracket_witness_pinned :
+    isDecodeErr (lastSortPinned (renderDoc {} bracketDoc)) = true ∧ isOkSome (lastSort (renderDoc {} bracketDoc)) = true := by
+  decide
 
 /-- `{"hits":{"hits":[{"sort":[1],"_source":{"f":"sort"}}]}}` -/
 def laterTokenDoc : Json :=
   searchDoc [(kSort, .arr [.num (nat ['1'])]), (['_','s','o','u','r','c','e'], .obj [(['f'], .str kSort)])]
 
-/-- **Negation witness 2 (genuine defect).**  A later `"sort"` token (here a string value equal to `sort`
-    behind the sort key; equally a `top_hits` aggregation, `inner_hits`, a terms bucket key …): the extractor
-    looks at the wrong place and returns no cursor. -/
+/-- **Negation witness (known finding `cursor-later-sort-token`).**  A later `"sort"` token (here a string
+    value equal to `sort` behind the sort key; equally a `top_hits` aggregation, `inner_hits`, a terms bucket
+    key …): the extractor looks at the wrong place and returns no cursor. -/
 theorem cursor_later_token_witness :
     isOkNone (lastSort (renderDoc {} laterTokenDoc)) = true ∧ lastHitSort laterTokenDoc = some (.arr [.num (nat ['1'])]) :=
   ⟨by decide, rfl⟩
+
+theorem cursor_always_last_sort_false : ¬ CursorAlwaysLastSort := by
+  intro h
+  have := h {} laterTokenDoc [.num (nat ['1'])] (by decide) rfl rfl (by
+    intro v hv
+    simp only [List.mem_cons, List.mem_nil_iff, or_false] at hv
+    subst hv
+    exact numOK_of_valid _ (by decide))
+  have hw := cursor_later_token_witness.1
+  rw [this] at hw
+  cases hw
 
 /-- **Witness 3.**  Pretty-printed text (`"sort" : [1]`): the regex needs the colon right after the key. -/
 theorem cursor_space_before_colon_witness :
@@ -439,54 +455,57 @@ example : (scrollQuery (some 10) 5 [page7]).toOption.map (fun a => (a.pages, a.h
   rw [scroll_pages_and_hits _ _ _ (by intro r hr; simp only [List.mem_singleton] at hr; subst hr; exact page7_shape)]
   decide
 
+/- non-vacuity for the search_after extraction on `page7` (what one loop iteration reads; the loop's
+   continuation test is float arithmetic on `Rat`, which the kernel does not evaluate by `decide`) -/
+set_option maxRecDepth 8000 in
+example : (saExtract {} false pyNone page7).toOption.map (fun p => (p.1.hitsValue, p.1.took)) =
+    some (some (.s (.num (nat ['3']))), some (.s (.num (nat ['5'])))) := by
+  rw [saExtract_eq_full {} false pyNone page7 page7_shape]
+  decide
+
+/-- non-vacuity of `parse_props_eq_full` / `parse_list_flags_eq_full`: on `page7` the hypotheses hold for
+    `hits.total.value` and `hits.hits`, although `_source` contains the keys `hits.total` and `a.b` -/
+example : pget (parseSel [kTook, kHitsTotalValue] [kHitsHits] [] (events [] page7)) kHitsTotalValue = some (.s (.num (nat ['3']))) := by
+  have := parse_props_eq_full page7 [kTook, kHitsTotalValue] [kHitsHits] [] [kHits, kTotal, kValue] (by simp) (by decide)
+    (no_alias_of_es_shape _ _ (by decide) page7_shape.gHits) (by decide) (by decide) (by simp)
+  exact this rfl
+
+example : pget (parseSel [kTook] [kHitsHits] [] (events [] page7)) kHitsHits = some (.s (.bool false)) := by
+  have := parse_list_flags_eq_full page7 [kTook] [kHitsHits] [] [kHits, kHits] (by simp) (by decide)
+    (no_alias_of_es_shape _ _ (by decide) (goodAlong_of_B _ _ (by decide))) (by decide) (by decide) (by simp)
+  exact this
+
 /-! ## 5. The composite-aggregation `after_key` -/
 
-/-- **after_key_flat.**  For an unambiguous dotted name at which full parsing finds an object with scalar
-    members (none of them requested as a property), `parse(…, objects=[name])` returns the dict of the
-    **non-null** members. -/
-theorem after_key_flat (j : Json) (props lists : List Str) (comps : List Str) (hc : comps ≠ [])
+/-- the dict full parsing gives for a flat object (members in order, a later duplicate overwrites, `null` ↦ None) -/
+def fullFlat (kvs : List (Str × Json)) : List (Str × SVal) := kvs.foldl (fun acc kv => dset acc kv.1 kv.2.toSVal) []
+
+/-- **after_key_eq_full.**  For an unambiguous dotted name at which full parsing finds an object with scalar
+    members (none of them requested as a property), `parse(…, objects=[name])` returns exactly the fully
+    parsed object — `null` members included (code after commit 4b176e5). -/
+theorem after_key_eq_full (j : Json) (props lists : List Str) (comps : List Str) (hc : comps ≠ [])
     (h0 : joinDots comps ≠ []) (hna : NoAlias comps j) (hop : joinDots comps ∉ props)
     (kvs : List (Str × Json)) (hget : getPath j comps = some (.obj kvs))
     (hflat : ∀ kv ∈ kvs, kv.2.isScalar = true ∧ (joinDots comps ++ '.' :: kv.1) ∉ props) :
-    pget (parseSel props lists [joinDots comps] (events [] j)) (joinDots comps) = some (.dict (flatDict kvs [])) :=
-  parse_object_flat j props lists comps hc h0 hna hop kvs hget hflat
-
-/-- the dict full parsing gives for a flat object -/
-def fullFlat (kvs : List (Str × Json)) : List (Str × SVal) := kvs.foldl (fun acc kv => dset acc kv.1 kv.2.toSVal) []
-
-/-- **after_key_eq_full (partial).**  If no member is `null`, that is the fully parsed object. -/
-theorem after_key_eq_full_partial (j : Json) (props lists : List Str) (comps : List Str) (hc : comps ≠ [])
-    (h0 : joinDots comps ≠ []) (hna : NoAlias comps j) (hop : joinDots comps ∉ props)
-    (kvs : List (Str × Json)) (hget : getPath j comps = some (.obj kvs))
-    (hflat : ∀ kv ∈ kvs, kv.2.isScalar = true ∧ (joinDots comps ++ '.' :: kv.1) ∉ props)
-    (hnn : ∀ kv ∈ kvs, kv.2 ≠ .null) :
     pget (parseSel props lists [joinDots comps] (events [] j)) (joinDots comps) = some (.dict (fullFlat kvs)) := by
-  rw [after_key_flat j props lists comps hc h0 hna hop kvs hget hflat, flatDict_no_null kvs [] hnn]
+  rw [parse_object_flat j props lists comps hc h0 hna hop kvs hget hflat, flatDict_eq_foldl]
   rfl
 
-def AfterKeyAlwaysFull : Prop :=
-  ∀ (j : Json) (props lists comps : List Str) (kvs : List (Str × Json)), comps ≠ [] → joinDots comps ≠ [] →
-    NoAlias comps j → joinDots comps ∉ props → getPath j comps = some (.obj kvs) →
-    (∀ kv ∈ kvs, kv.2.isScalar = true ∧ (joinDots comps ++ '.' :: kv.1) ∉ props) →
-    pget (parseSel props lists [joinDots comps] (events [] j)) (joinDots comps) = some (.dict (fullFlat kvs))
-
-/-- `{"aggregations":{"c":{"after_key":{"p":null,"q":1}}}}` (a composite source with `missing_bucket`) -/
+/-- `{"aggregations":{"c":{"after_key":{"p":null,"q":1.5,"r":"x]"}}}}` (a composite source with `missing_bucket`) -/
 def nullAfterDoc : Json :=
-  .obj [(kAggregations, .obj [(['c'], .obj [(kAfterKey, .obj [(['p'], .null), (['q'], .num (nat ['1']))])])])]
+  .obj [(kAggregations, .obj [(['c'], .obj [(kAfterKey,
+    .obj [(['p'], .null), (['q'], .num ⟨false, ['1'], ['5'], none⟩), (['r'], .str ['x', ']'])])])])]
 
-/-- **Negation witness (genuine defect).**  `null` is not in the list of primitive events `parse` records:
-    the member is dropped and the `after` sent with the next request is not the `after_key` received. -/
-theorem after_key_always_full_false : ¬ AfterKeyAlwaysFull := by
-  intro h
-  have := h nullAfterDoc [kTook] [] [kAggregations, ['c'], kAfterKey] [(['p'], .null), (['q'], .num (nat ['1']))]
-    (by simp) (by decide) (noAlias_of_goodAlong _ _ (by decide) (goodAlong_of_B _ _ (by decide))) (by decide) rfl
-    (by
+/-- non-vacuity (and the former witness of the dropped `null` member): all three members arrive -/
+example : pget (parseSel [kTook] [] [joinDots [kAggregations, ['c'], kAfterKey]] (events [] nullAfterDoc))
+      (joinDots [kAggregations, ['c'], kAfterKey]) =
+    some (.dict [(['p'], .none), (['q'], .num ⟨false, ['1'], ['5'], none⟩), (['r'], .str ['x', ']'])]) := by
+  have := after_key_eq_full nullAfterDoc [kTook] [] [kAggregations, ['c'], kAfterKey] (by simp) (by decide)
+    (noAlias_of_goodAlong _ _ (by decide) (goodAlong_of_B _ _ (by decide))) (by decide)
+    [(['p'], .null), (['q'], .num ⟨false, ['1'], ['5'], none⟩), (['r'], .str ['x', ']'])] rfl (by
       intro kv hkv
       simp only [List.mem_cons, List.mem_nil_iff, or_false] at hkv
-      rcases hkv with hkv | hkv <;> subst hkv <;> exact ⟨rfl, by decide⟩)
-  have hw : pget (parseSel [kTook] [] [joinDots [kAggregations, ['c'], kAfterKey]] (events [] nullAfterDoc))
-      (joinDots [kAggregations, ['c'], kAfterKey]) = some (.dict [(['q'], .num (nat ['1']))]) := by decide
-  rw [hw] at this
-  exact absurd this (by decide)
+      rcases hkv with hkv | hkv | hkv <;> subst hkv <;> exact ⟨rfl, by decide⟩)
+  exact this
 
 end C19
